@@ -8,37 +8,28 @@ namespace NV.C02
 
 open NV.Gen.C02
 
-def sumC : List Frame → Nat
-  | [] => 0
-  | f :: fs => f.c + sumC fs
+/-- the saved blocks of the open literals (innermost first) lie below the current pointers and below each other -/
+def Chain (N tsize : Nat) : Nat → Nat → List Frame → Prop
+  | _, _, [] => True
+  | lo, to, f :: rest =>
+    f.lo + f.c ≤ lo ∧ f.to + f.m ≤ to ∧ f.lo ≤ f.to ∧ f.c ≤ f.m ∧ f.m ≤ N ∧ f.to + N ≤ tsize ∧ Chain N tsize f.lo f.to rest
 
-def sumM : List Frame → Nat
-  | [] => 0
-  | f :: fs => f.m + sumM fs
+theorem chain_mono {N ts ts' : Nat} (hts : ts ≤ ts') : ∀ (fs : List Frame) {lo to lo' to' : Nat}, lo ≤ lo' → to ≤ to' →
+    Chain N ts lo to fs → Chain N ts' lo' to' fs
+  | [], _, _, _, _, _, _, _ => trivial
+  | f :: rest, lo, to, lo', to', h1, h2, h => by
+    simp only [Chain] at h ⊢
+    obtain ⟨a, b, c, d, e, g, r⟩ := h
+    exact ⟨by omega, by omega, c, d, e, by omega, chain_mono hts rest (Nat.le_refl _) (Nat.le_refl _) r⟩
 
-theorem sumC_le_sumM : ∀ (fs : List Frame), (∀ f ∈ fs, f.c ≤ f.m) → sumC fs ≤ sumM fs
-  | [], _ => Nat.le_refl _
-  | f :: fs, h => by
-    have h1 := h f (List.mem_cons_self ..)
-    have h2 := sumC_le_sumM fs (fun g hg => h g (List.mem_cons_of_mem _ hg))
-    simp only [sumC, sumM]; omega
-
-/-- splitting the saved pairs at depth `d`: the dropped part accounts for at least as much of the type offset
-    as of the name offset -/
-theorem sum_drop : ∀ (d : Nat) (fs : List Frame), (∀ f ∈ fs, f.c ≤ f.m) →
-    ∃ a b, sumC fs = a + sumC (fs.drop d) ∧ sumM fs = b + sumM (fs.drop d) ∧ a ≤ b
-  | 0, fs, _ => ⟨0, 0, by simp⟩
-  | _ + 1, [], _ => ⟨0, 0, by simp⟩
-  | d + 1, f :: fs, h => by
-    obtain ⟨a, b, h1, h2, h3⟩ := sum_drop d fs (fun g hg => h g (List.mem_cons_of_mem _ hg))
-    have hf := h f (List.mem_cons_self ..)
-    refine ⟨f.c + a, f.m + b, ?_, ?_, ?_⟩
-    · simp only [sumC, List.drop_succ_cons]; omega
-    · simp only [sumM, List.drop_succ_cons]; omega
-    · omega
-
-theorem mem_of_mem_drop {α} {x : α} {d : Nat} {l : List α} (h : x ∈ l.drop d) : x ∈ l :=
-  List.mem_of_mem_drop h
+theorem chain_drop {N ts : Nat} : ∀ (d : Nat) (fs : List Frame) {lo to : Nat}, Chain N ts lo to fs → Chain N ts lo to (fs.drop d)
+  | 0, fs, _, _, h => by simpa using h
+  | _ + 1, [], _, _, _ => by simp [Chain]
+  | d + 1, f :: rest, lo, to, h => by
+    simp only [Chain] at h
+    obtain ⟨a, b, c, _, _, _, r⟩ := h
+    simp only [List.drop_succ_cons]
+    exact chain_drop d rest (chain_mono (Nat.le_refl _) rest (by omega) (by omega) r)
 
 /-- invariant of the locals tables (repaired code) -/
 structure LocInv (l : Loc) : Prop where
@@ -47,18 +38,12 @@ structure LocInv (l : Loc) : Prop where
   maxN : l.max ≤ l.N
   tFit : l.tOff + l.N ≤ l.tsize
   sizes : l.lsize = l.tsize
-  sc : sumC l.frames ≤ l.lOff
-  sm : sumM l.frames ≤ l.tOff
-  slack : l.lOff + sumM l.frames ≤ l.tOff + sumC l.frames
-  fr : ∀ f ∈ l.frames, f.c ≤ f.m
-  frN : ∀ f ∈ l.frames, f.m ≤ l.N
+  lt : l.lOff ≤ l.tOff
+  chain : Chain l.N l.tsize l.lOff l.tOff l.frames
 
-theorem LocInv.lOff_le_tOff {l : Loc} (h : LocInv l) : l.lOff ≤ l.tOff := by
-  have := sumC_le_sumM l.frames h.fr
-  have := h.slack
-  omega
+theorem LocInv.lOff_le_tOff {l : Loc} (h : LocInv l) : l.lOff ≤ l.tOff := h.lt
 
 theorem locInv_init (N : Nat) : LocInv (Loc.init N) := by
-  constructor <;> simp [Loc.init, sumC, sumM]
+  constructor <;> simp [Loc.init, Chain]
 
 end NV.C02
